@@ -141,6 +141,12 @@ class OrderAnalysis:
             if t is not None and t.kind == 'Perm':
                 return T('Perm', winv(t.o))
             return None
+        if nm == 'outer' and isinstance(c.func, ast.Attribute) and isinstance(c.func.value, ast.Attribute) \
+                and c.func.value.attr == 'equal' and len(c.args) == 2:
+            # np.equal.outer(np.arange(n), inv): row i is the membership mask of group i
+            t1 = self.ty(c.args[1], env)
+            if t1 is not None and t1.kind == 'Inv':
+                return T('Member', t1.o)
         if nm in FRESH_FUNCS:
             return T('Fresh')
         if nm == 'arange' and len(c.args) == 1:
@@ -340,11 +346,16 @@ class OrderAnalysis:
                     ta = self.ty(a, env) if not is_i(a) else None
                     if ta is not None and ta.kind == 'Inv' and is_i(b):
                         uses.append((ta.o, n, f'`{ast.unparse(n)[:50]}` selects the items of group i in {wname(ta.o)}'))
+            if isinstance(n, ast.Call) and _leaf(n.func) == 'equal' and len(n.args) == 2:
+                for a, b in ((n.args[0], n.args[1]), (n.args[1], n.args[0])):
+                    ta = self.ty(a, env) if not is_i(a) else None
+                    if ta is not None and ta.kind == 'Inv' and is_i(b):
+                        uses.append((ta.o, n, f'`{ast.unparse(n)[:50]}` selects the items of group i in {wname(ta.o)}'))
             if isinstance(n, ast.Subscript) and isinstance(n.ctx, ast.Load):
                 first = n.slice.elts[0] if isinstance(n.slice, ast.Tuple) and n.slice.elts else n.slice
                 if is_i(first):
                     ta = self.ty(n.value, env)
-                    if ta is not None and ta.kind in ('Uniq', 'Rows'):
+                    if ta is not None and ta.kind in ('Uniq', 'Rows', 'Member'):
                         uses.append((ta.o, n, f'`{ast.unparse(n)[:50]}` reads group i in {wname(ta.o)}'))
             if isinstance(n, (ast.Assign, ast.AugAssign)):
                 t0 = n.targets[0] if isinstance(n, ast.Assign) else n.target
@@ -470,10 +481,31 @@ def contract(ctx, obs, q: str, expected: T, what: str, rule='ORD-CONTRACT'):
     if got is None:
         obs.unk(rule, q, con, 'the return value could not be order-typed (construction not recognised)', where(ctx.prog, fi, fi.node))
         return
-    if _compatible(got, expected):
+    verdict = _compat3(got, expected)
+    if verdict == 'ok':
         obs.ok(rule, q, con, str(got), where(ctx.prog, fi, fi.node))
+    elif verdict == 'unknown':
+        obs.unk(rule, q, con, f'only partly order-typed: {got} (construction not recognised for the rest)', where(ctx.prog, fi, fi.node))
     else:
         obs.bad(rule, q, con, f'the function returns {got}; callers rely on {expected}', where(ctx.prog, fi, fi.node))
+
+
+def _compat3(got: Optional[T], exp: Optional[T]) -> str:
+    """'ok' / 'unknown' (some part could not be typed, nothing contradicts) / 'bad' (a typed part contradicts)"""
+    if exp is None:
+        return 'ok'
+    if got is None:
+        return 'unknown'
+    if exp.kind == 'Tuple':
+        if got.kind != 'Tuple' or len(got.comps) != len(exp.comps):
+            return 'unknown'
+        vs = [_compat3(g, e) for g, e in zip(got.comps, exp.comps)]
+        if 'bad' in vs:
+            return 'bad'
+        return 'unknown' if 'unknown' in vs else 'ok'
+    if got.kind != exp.kind:
+        return 'bad' if got.kind in ('Uniq', 'Inv', 'Rows') and exp.kind in ('Uniq', 'Inv', 'Rows') else 'unknown'
+    return 'ok' if got.o == exp.o else 'bad'
 
 
 def _compatible(got: T, exp: T) -> bool:
